@@ -1,6 +1,8 @@
 """C12: reported error positions are consistent with, and point into, the program text."""
 from framework import Check, Case
-from jqlib import simple_run, hx, unhx
+import re
+from jqlib import simple_run, hx, unhx, RunRes
+from checklib import run_cli, Scratch, pmap
 
 FILL_TOP = [
     "# a comment",
@@ -36,6 +38,28 @@ FILL_STMT = [
 BEFORE = ["", "", "  ", "\t", "x6 = 1; ", "s5 = \"é©\"; ", "\t s6 = '日本' ; ", "x7 = [1, 2]; ", "s7 = \"first\nsecond\"; ", "r7 = /x\ny/; x6 = 1; "]
 AFTER = ["", "", " ", " # trailing ©", " ; x8 = 2", " ;x9 = \"ü\" # c"]
 ILLEGAL = ["@", "`", "?", "^", "\\", "& ", "| ", "é", "ü", "€", "日", "©", "×", "😀", "\x01", "\x7f"]
+
+# ---- very long lines: one-statement pieces (no line breaks inside) that pad a program line to a chosen width
+LONG_PIECES = ["x6 = 1; ", "s5 = \"é©\"; ", "\t", "names = [\"item01\", \"item02\", \"item03\"]; ", "s6 = '日本語 €'; ", "   ", "o7 = {k: [1, 2], \"ü\": 'v'}; ",
+               "\t \t", "if (x6 > 5) { x3 = 3 } ", "x7 = x6 * (2 + 3) - 4; ", "s7 = \"😀 wide\" + 'x'; "]
+LONG_WIDTHS = [200, 201, 240, 300, 450, 1000, 2500, 5000]
+# loops that only the harness' iteration cap ends: never handed to the real binary
+ENDLESS = ("while (1) { }", "for (i9 = 0; 1; i9++) { }")
+# the three diagnostic lines of cli/cli.go: two blanks + quoted line, two blanks + caret right-aligned in a field of col+1, the message
+DIAG_RE = re.compile(rb"\A  ([^\n]*)\n  ( *)\^\n(syntax|runtime) error on line ([0-9]+): ")
+
+
+def long_pad(rng, width):
+    """statements (tabs, multi-byte strings) of exactly `width` bytes, ending after a ';' and blanks"""
+    out = ""
+    while True:
+        piece = rng.choice(LONG_PIECES)
+        if len((out + piece).encode()) > width - 8:
+            break
+        out += piece
+    out += "x6 = 1;"
+    return out + " " * (width - len(out.encode()))
+
 
 def lexical_faults(rng):
     """(kind, text, (start, end) byte span of the illegal character inside text, expected outcome, exact); the hosts mark the place
@@ -231,6 +255,19 @@ class C12(Check):
         for op in sorted(by_op):
             for f in rng.sample(by_op[op], min(len(by_op[op]), (6 if thorough else 1) * (3 if op == "/=" else 1))):
                 self.every_line(rng, *f)
+        # faults on very long lines (200 .. 5000 bytes; a minified program): at the end, at the start and in the middle of the line
+        syn = [t for t in SYNTAX_FAULTS if t not in NEEDS_FOLLOW]
+        run = [t for t in RUNTIME_FAULTS if t not in ENDLESS]
+        for _ in range(4 if thorough else 1):
+            for width in LONG_WIDTHS:
+                for shape in ("end", "start", "middle"):
+                    ch = rng.choice(ILLEGAL)
+                    self.plant_long(rng, "illegal character", "x = 1 " + ch, (6, 6 + len(ch.rstrip(" ").encode())), "syntax", True, width, shape)
+                    self.plant_long(rng, "syntax fault", rng.choice(syn), None, "syntax", False, width, shape)
+                    self.plant_long(rng, "runtime fault", rng.choice(run), None, "runtime", False, width, shape)
+                what, setup, stmt = rng.choice(cf)
+                self.plant_long(rng, "runtime fault through " + what, setup + stmt, (len(setup.encode()), len((setup + stmt).encode())), "runtime",
+                                False, width, rng.choice(["end", "start", "middle"]))
         # a stray `next` inside a function, called from a rule where it has no meaning: the fault is the next statement
         for _ in range(reps):
             for caller in ("BEGIN", "END"):
@@ -295,6 +332,28 @@ class C12(Check):
         nlines = prog.count(b"\n") + 1
         self.add(prog, {"what": "%s: %s" % (kind, text), "line": n, "span": [off + span[0], off + span[1]], "outcome": outcome,
                         "exact": exact}, nlines >= 3 and n > 1)
+
+    def plant_long(self, rng, kind, text, span, outcome, exact, width, shape):
+        """the fault on a line of at least `width` bytes: after a long run of statements (end), in front of one (start) or between two"""
+        before = long_pad(rng, width if shape == "end" else width // 2) if shape != "start" else rng.choice(["", "  ", "x6 = 1; ", "\t"])
+        if shape == "start" and (text in NEEDS_SEMI or text[0] in "[(-+/"):
+            before = "x6 = 1; "
+        if shape == "end":
+            after = rng.choice(["", " ", " # c ©"])
+        else:
+            rest = width if shape == "start" else width - width // 2
+            if text.rstrip().endswith("}") or rng.random() < 0.3:
+                after = " # " + "".join(rng.choice(["long ", "comment ", "© ", "\t", "日本 "]) for _ in range(rest))
+                after = after.encode()[:rest].decode("utf-8", "ignore")
+            else:
+                after = " ; " + long_pad(rng, rest)
+        line = before + text + after
+        off = len(before.encode())
+        if span is None:
+            span = (0, len(text.encode()))
+        prog, n = self.layout(rng, line, "begin")
+        self.add(prog, {"what": "%s on a line of %d bytes (%s): %s" % (kind, len(line.encode()), shape, text), "line": n,
+                        "span": [off + span[0], off + span[1]], "outcome": outcome, "exact": exact, "long": True}, n > 1)
 
     def every_line(self, rng, what, setup, stmt):
         """one program per line j of a K-line body (BEGIN / END / pattern rule / function called from BEGIN) with the fault on line j;
@@ -391,6 +450,92 @@ class C12(Check):
             a, b = m["span"]
             if not (a <= col < b):
                 return "%s: planted at columns [%d,%d) of line %d, reported column %d" % (m["what"], a, b, line, col)
+        return None
+
+    # ------------------------------------------------------------------ the diagnostic printed by the real binary
+    def extra(self, ctx):
+        """every planted-fault program (all of the long-line ones, a sample of the rest) through `jqawk -f prog`: stderr must be the three
+        diagnostic lines, the first quoting exactly line N of the program, the caret under the reported byte column"""
+        rng, tier = ctx["rng"], ctx["tier"]
+        cand = []
+        for c in ctx["cases"]:
+            m = c.meta
+            if not c.line or "proghex" not in m or any(e in m["prog"] for e in ENDLESS):
+                continue
+            r = RunRes(ctx["impl"].get(c.id, []))
+            if r.outcome in ("syntax", "runtime"):
+                cand.append((c, r))
+        longs = [x for x in cand if x[0].meta.get("long")]
+        rest = [x for x in cand if not x[0].meta.get("long")]
+        nrest = 2000 if tier == "thorough" else 500
+        if len(rest) > nrest:
+            rest = rng.sample(rest, nrest)
+        sample = longs + rest
+        viol, stats = [], {"cli_diagnostics_long_lines": len(longs), "cli_diagnostics_run": len(sample)}
+        with Scratch() as sc:
+            def one(x):
+                c, r = x
+                src = unhx(c.meta["proghex"])
+                args = ["-f", sc_file(src)]
+                for t in c.meta.get("inputs", []):
+                    args.append(sc_file(t.encode(), ".json"))
+                return run_cli(args, b"", timeout=20)
+            import threading
+            lock = threading.Lock()
+
+            def sc_file(data, suffix=""):
+                with lock:
+                    return sc.file(data, suffix)
+            results = pmap(one, sample)
+        compared = 0
+        for (c, r), res in zip(sample, results):
+            if res.timed_out:
+                continue
+            why = self.judge_cli(c, r, res)
+            if why == "skip":
+                continue
+            compared += 1
+            if why:
+                meta = dict(c.meta, stderr=res.err.decode("utf-8", "replace")[:12000], command="jqawk -f <prog> " + " ".join("<input%d>" % (i + 1) for i in range(len(c.meta.get("inputs", [])))))
+                viol.append((Case("cli-" + c.id, None, meta, True, ("cli",)), "jqawk binary: " + why))
+        stats["cli_diagnostics_compared"] = compared
+        if sample and compared < len(sample) // 2:
+            viol.append((Case("cli-none", None, {"attempted": len(sample), "compared": compared}, True, ("cli",)),
+                         "jqawk binary: only %d of %d fault programs produced a diagnostic that could be compared" % (compared, len(sample))))
+        return viol, stats
+
+    def judge_cli(self, c, r, res):
+        m = c.meta
+        src = unhx(m["proghex"])
+        t = res.trace()
+        if t or res.rc is None or res.rc < 0:
+            return "%s: the process died (%r, exit status %s)" % (m["what"], t, res.rc)
+        if res.rc == 0:
+            return "skip"               # the run through the binary met no error (not this property's business)
+        mt = DIAG_RE.match(res.err)
+        if not mt:
+            return "%s: stderr is not `  <line>` / `  <blanks>^` / `<kind> error on line N: ...`: %r" % (m["what"], res.err[:300])
+        quoted, caret, kind, line = mt.group(1), len(mt.group(2)), mt.group(3).decode(), int(mt.group(4))
+        lines = src.split(b"\n")
+        if not (1 <= line <= len(lines)):
+            return "%s: diagnostic names line %d, the program has %d lines" % (m["what"], line, len(lines))
+        if quoted != lines[line - 1]:
+            return "%s: the diagnostic names line %d and quotes %r (%d bytes), but line %d of the program is %r (%d bytes)" % (
+                m["what"], line, quoted[:120], len(quoted), line, lines[line - 1][:120], len(lines[line - 1]))
+        if caret > len(quoted):
+            return "%s: caret at column %d under a quoted line of %d bytes" % (m["what"], caret, len(quoted))
+        try:
+            rl, rc = int(r.line), int(r.col)
+        except ValueError:
+            return "skip"
+        if kind != r.outcome or line != rl:
+            return "%s: the library reports a %s error on line %d, the binary prints a %s error on line %d" % (m["what"], r.outcome, rl, kind, line)
+        if caret != rc:
+            return "%s: reported byte column %d (line %d), the caret is printed at column %d" % (m["what"], rc, line, caret)
+        if "line" in m:
+            a, b = m["span"]
+            if line != m["line"] or not (a <= caret < b):
+                return "%s: planted at columns [%d,%d) of line %d, diagnostic has line %d and the caret at column %d" % (m["what"], a, b, m["line"], line, caret)
         return None
 
 
